@@ -18,7 +18,17 @@ pub const OWN: &[&str] = &["reload_divergence", "reload_changed_state", "reload_
 pub fn base_world(seed: u64, idx: u64, s: &dyn SuiteOps, hsm: bool) -> World {
     let mut g = Gen::new(seed, &format!("gen/c13/{}/{}", s.name(), idx));
     let mut b = WB::new(s, seed, idx, "c13 base run");
-    let setup = b.setup(hsm);
+    // an externally-held key enters through `ServerSetup::new_with_key` (the way a
+    // deployment creates such a setup); a directly-held one through `ServerSetup::new`
+    let setup = if hsm {
+        let s0 = b.setup(false);
+        let out = b.id();
+        let tape = b.tape("setup-with-key");
+        b.push(Op::NewSetupWithKey { out, tape, sk_from: s0 });
+        out
+    } else {
+        b.setup(false)
+    };
     let pw = small_pw(&mut g);
     let cred = small_cred(&mut g);
     let ksf = gen_ksf(&mut g, s.ksf_family(), true);
@@ -45,7 +55,7 @@ pub fn base_world(seed: u64, idx: u64, s: &dyn SuiteOps, hsm: bool) -> World {
     threads.push(ops);
     b.interleave(&mut g, threads);
     // an externally held key may serialize to an opaque handle rather than the scalar
-    if hsm && idx % 2 == 1 {
+    if hsm && (crate::driver::fnv(s.name().as_bytes()) + idx) % 2 == 0 {
         b.w.knobs.hsm_handle = true;
     }
     b.w
@@ -111,7 +121,7 @@ pub fn with_reload_ops(base: &World, g: &mut Gen) -> World {
     for op in base.ops.iter() {
         ops.push(op.clone());
         match op {
-            Op::NewSetup { out, .. } => {
+            Op::NewSetup { out, .. } | Op::NewSetupWithKey { out, .. } => {
                 setup_id = Some(*out);
                 ops.push(Op::Reload { id: *out, codec: *g.pick(&ALL_CODECS[1..]) });
             }
